@@ -51,6 +51,8 @@ mod updater;
 mod utxo_entry;
 #[cfg(feature = "verif")]
 pub mod verif;
+#[cfg(feature = "verif")]
+pub mod verif_codec;
 
 #[cfg(test)]
 pub(crate) mod testing;
